@@ -245,6 +245,7 @@ class Gen:
             c = t.get("cons")
             v = 0 if in_cons(c, 0) else (c["lo"] if c and c["lo"] is not None else c["hi"])
             if c and c.get("ext"): return None
+            if v is None or v < 0: return None      # F43: negative DEFAULT => uncompilable identifier
             return (v, str(v))
         if k == "ENUMERATED":
             n, v = t["items"][0]
@@ -260,7 +261,8 @@ class Gen:
         k = r.choice(["SEQUENCE", "SEQUENCE", "SET", "CHOICE", "SEQUENCE OF", "SET OF"])
         if k in ("SEQUENCE OF", "SET OF"):
             el = self.gen_type(depth + 1, env_names)
-            if el["k"] in ("SEQUENCE OF", "SET OF"):
+            if el["k"] in ("SEQUENCE OF", "SET OF") or (el["k"] == "INTEGER" and el.get("cons") and int_repr(el["cons"]) == "ulong"):
+                # F44: an inline unsigned-long INTEGER element makes asn1c emit uncompilable C
                 # asn1c mis-parses directly nested constrained "OF" types (parser assertion F33 /
                 # constraint mis-association): nest through a named type instead
                 self.hoist_n = getattr(self, "hoist_n", 0) + 1
@@ -318,6 +320,16 @@ class Gen:
                 {"id": "kids", "type": {"k": "SEQUENCE OF", "elem": {"k": "REF", "name": "Rec"}, "size": None,
                                         "tag": None if self.tagdefault == "AUTOMATIC" else ("ctx", 1, "")}, "opt": "OPTIONAL"}]}))
         return {"name": name, "tagdefault": self.tagdefault, "types": types}
+
+def int_repr(c):
+    """asn1c_type_fits_long with its 32-bit assumptions: 'long', 'ulong' or None (= INTEGER_t)"""
+    if c is None: return "long"
+    lo, hi = c["lo"], c["hi"]
+    if lo is not None and lo >= 0 and hi is None: return "ulong"
+    if lo is None or hi is None: return None
+    if lo >= -(1 << 31) and hi <= (1 << 31) - 1: return "long"
+    if lo >= 0 and hi <= (1 << 32) - 1: return "ulong"
+    return None
 
 def strip_tag(t):
     t = dict(t); t.pop("tag", None); return t
@@ -381,6 +393,7 @@ class ValGen:
             c = t.get("cons")
             cands = sorted(v for v in int_boundaries(c) if in_cons(c, v) or (c and c["ext"]))
             if c and c["ext"] and self.avoid.__dict__.get("no_out_of_root"): cands = [v for v in cands if in_cons(c, v)]
+            if c and int_repr(c) == "ulong": cands = [v for v in cands if v >= 0]     # stored in unsigned long
             if i < len(cands): return cands[i]
             if c and c["lo"] is not None and c["hi"] is not None: return r.randint(c["lo"], c["hi"])
             lo = c["lo"] if c and c["lo"] is not None else -(1 << 63)
@@ -399,7 +412,9 @@ class ValGen:
             e = r.randrange(1, 2047); m = r.getrandbits(52) if r.random() < 0.5 else (r.getrandbits(8) << r.randrange(0, 44))
             return (r.getrandbits(1) << 63) | (e << 52) | m
         if k in ("OCTET STRING", "BIT STRING") or k in STRING_KINDS:
+            self._no_oor = (k == "BIT STRING" and self.avoid.bitstring_trailing_zero)   # F19 family: padded up to lb
             n = self.length_for(t.get("size"), i)
+            self._no_oor = False
             if k == "OCTET STRING": return bytes(r.getrandbits(8) for _ in range(n))
             if k == "BIT STRING":
                 # n = number of bits
@@ -443,7 +458,7 @@ class ValGen:
             return (c["id"], self.value(c["type"], None, depth + 1))
         if k in ("SEQUENCE OF", "SET OF"):
             n = self.length_for(t.get("size"), i, small=True)
-            if depth > 4: n = min(n, 1)
+            if depth > 4: n = min(n, max(1, (t.get("size") or {}).get("lo") or 0))
             return [self.value(t["elem"], None, depth + 1) for _ in range(n)]
         raise ValueError(k)
 
@@ -456,8 +471,8 @@ class ValGen:
             hi = c["hi"] if c["hi"] is not None else lo + (4 if small else 130)
             edges = sorted({lo, min(lo + 1, hi), hi, max(hi - 1, lo)})
             edges = [e for e in edges if e <= (8 if small else 300)] or [lo]
-            if c["ext"] and not self.avoid.__dict__.get("no_out_of_root"):
-                edges.append(hi + 1)
+            if c["ext"] and not self.avoid.__dict__.get("no_out_of_root") and not getattr(self, "_no_oor", False):
+                if hi + 1 <= (8 if small else 300): edges.append(hi + 1)
                 if lo > 0: edges.append(lo - 1)
         if i < len(edges): return edges[i]
         return r.choice(edges)
